@@ -11,7 +11,7 @@ from props import _mc as M
 from props._exprcheck import pretty
 
 ID = "C02"
-SECTIONS = ["ops", "mc"]
+SECTIONS = ["ops", "mc", "mccorr"]
 LEAN_MODULES = ["QExPy.Props.C02"]
 THEOREMS = [
     "QExPy.C02_sample_size",
